@@ -22,13 +22,13 @@ SCIPY = ["Nelder-Mead", "Powell", "COBYLA", "L-BFGS-B", "BFGS", "CG", "TNC", "SL
 
 
 def cases(ctx):
-    for i in range(ctx.pick(250, 5000)):
+    for i in range(ctx.pick(500, 100000)):
         yield "batch", {"seed": ctx.subseed("b", i)}
-    for i in range(ctx.pick(60, 1000)):
+    for i in range(ctx.pick(120, 20000)):
         yield "sweep", {"seed": ctx.subseed("s", i), "gen": ["custom", "random", "lhs", "halton", "uniform"][i % 5]}
-    for i in range(ctx.pick(24, 320)):
+    for i in range(ctx.pick(48, 6400)):
         yield "scipy", {"seed": ctx.subseed("sp", i), "method": SCIPY[i % len(SCIPY)]}
-    for i in range(ctx.pick(24, 320)):
+    for i in range(ctx.pick(48, 6400)):
         yield "nlopt", {"seed": ctx.subseed("nl", i), "algo": i % 8}
 
 
